@@ -656,3 +656,37 @@ func VerifC20KeyedPassthrough() {
 	}
 	vassert(err1 != nil && err2 != nil, "a keyed pass-through whose type cannot be inferred is rejected by Compile with an error, on every attempt")
 }
+
+// ill-formed branch declarations: a nil branch, a branch without targets, a workflow branch to a node that does not
+// exist: an error from AddBranch or Compile, never a panic
+func VerifC20BadBranches() {
+	ctx := context.Background()
+	vcfg("fifo", 1)
+	var err error
+	switch vchoose("case", 3) {
+	case 0:
+		g := NewGraph[map[string]any, map[string]any]()
+		_ = g.AddLambdaNode("a", vNode("a", nil))
+		_ = g.AddEdge(START, "a")
+		_ = g.AddEdge("a", END)
+		err = g.AddBranch("a", nil)
+		if err == nil {
+			_, err = g.Compile(ctx)
+		}
+	case 1:
+		wf := NewWorkflow[map[string]any, map[string]any]()
+		wf.AddLambdaNode("a", vNode("a", nil)).AddInput(START)
+		wf.AddLambdaNode("b", vNode("b", nil)).AddInput("a")
+		wf.End().AddInput("b")
+		wf.AddBranch("a", NewGraphBranch(func(ctx context.Context, in map[string]any) (string, error) { return "b", nil },
+			map[string]bool{"b": true, "zzz": true}))
+		_, err = wf.Compile(ctx)
+	case 2:
+		wf := NewWorkflow[map[string]any, map[string]any]()
+		wf.AddLambdaNode("a", vNode("a", nil)).AddInput(START)
+		wf.End().AddInput("a")
+		wf.AddBranch("a", nil)
+		_, err = wf.Compile(ctx)
+	}
+	vassert(err != nil, "a nil branch or a branch to an unknown node is rejected with an error")
+}
